@@ -44,6 +44,7 @@ r_exp = z3.Function("r_exp", z3.RealSort(), z3.RealSort())
 r_log2 = z3.Function("r_log2", z3.RealSort(), z3.RealSort())
 r_pow = z3.Function("r_pow", z3.RealSort(), z3.RealSort(), z3.RealSort())
 f32 = z3.Function("f32", z3.RealSort(), z3.RealSort())
+r_round = z3.Function("r_round", z3.RealSort(), I)
 le_uint = z3.Function("le_uint", A, I, I, I)     # little-endian unsigned int of `width` bytes at offset
 
 
@@ -89,6 +90,8 @@ def key_facts(key_t):
 
 
 def call_hashfunc(ex, st, fv, args, kwargs):
+    if any(isinstance(a, VOpaque) and a.desc == "foreign" for a in args):
+        return VOpaque("foreign")
     """call of a hashing-strategy value held in a field/parameter: uninterpreted pure function"""
     ex.lib_used.add("hash strategy parameters are pure total functions HF(func, key, depth) (C18 proves this for "
                     "the shipped strategies and the decorators)")
@@ -152,8 +155,9 @@ def rsum_axioms():
     return [
         z3.ForAll([a, lo], rsum(a, lo, lo) == 0, patterns=[rsum(a, lo, lo)]),
         # unfold one step at the top
-        z3.ForAll([a, lo, hi], z3.Implies(lo < hi, rsum(a, lo, hi) == rsum(a, lo, hi - 1) + a[hi - 1]),
-                  patterns=[rsum(a, lo, hi)]),
+        # (the trigger hi+1 only matches successor-shaped upper bounds, so the axiom cannot feed itself)
+        z3.ForAll([a, lo, hi], z3.Implies(lo <= hi, rsum(a, lo, hi + 1) == rsum(a, lo, hi) + a[hi]),
+                  patterns=[rsum(a, lo, hi + 1)]),
         # extensionality on the summed range
         z3.ForAll([a, b, lo, hi],
                   z3.Or(rsum(a, lo, hi) == rsum(b, lo, hi),
@@ -242,11 +246,33 @@ def call_builtin(ex, st, name, args, kwargs, node):
         x = as_int(args[0])
         return VInt(z3.If(x >= 0, x, -x))
     if name == "round":
-        ex.lib_used.add("round(float): nearest integer of the real value, |round(x)-x| <= 1/2")
+        ex.lib_used.add("round(float): a function of the real value with |round(x)-x| <= 1/2")
         x = as_real(args[0])
-        r = z3.Int(fresh_name("round"))
+        r = r_round(x)
         st.pc.append(z3.And(z3.ToReal(r) - x <= z3.RealVal("1/2"), x - z3.ToReal(r) <= z3.RealVal("1/2")))
         return VInt(r)
+    if name == "ceil_":
+        return math_model(ex, st, "ceil", args, line)
+    if name in ("le_bytes", "be_bytes"):
+        from . import streams
+        w = as_int(args[2])
+        if not z3.is_int_value(w):
+            raise Unsupported("le_bytes with a symbolic width")
+        f = streams.le_uint if name == "le_bytes" else streams.be_uint
+        return VInt(f(args[0].comps[0], as_int(args[1]), w.as_long()))
+    if name in ("f32", "ln", "exp_", "log2_", "pow_"):
+        # specification builtins over reals (native definitions in contracts/spec.py)
+        ex.lib_used.add("float32 narrowing f32 and log/exp/pow: uninterpreted real functions "
+                        "(machine arithmetic treated as mathematical)")
+        if name == "f32":
+            return VReal(f32(as_real(args[0])))
+        if name == "ln":
+            return VReal(r_log(as_real(args[0])))
+        if name == "exp_":
+            return VReal(r_exp(as_real(args[0])))
+        if name == "log2_":
+            return VReal(r_log2(as_real(args[0])))
+        return VReal(r_pow(as_real(args[0]), as_real(args[1])))
     if name in ("list", "bytes", "bytearray", "tuple"):
         if not args:
             return VSeq([z3.K(I, z3.IntVal(0))], z3.IntVal(0), TInt(), "list" if name == "list" else "bytes")
@@ -276,6 +302,8 @@ def call_builtin(ex, st, name, args, kwargs, node):
         return isinstance_model(ex, st, args[0], node.args[1])
     if name == "array" or name == "array.array":
         tc = args[0]
+        if isinstance(tc, VStr) and tc.lit is None:
+            tc = literal_of(ex, st, tc, ("B", "I", "i", "L"))
         if not (isinstance(tc, VStr) and tc.lit is not None):
             raise Unsupported("array() with a symbolic type code")
         t = parse_type("array:" + tc.lit)
@@ -322,6 +350,20 @@ def call_builtin(ex, st, name, args, kwargs, node):
     if name == "type":
         return VOpaque("type")
     raise Unsupported(f"call to {name}")
+
+
+def literal_of(ex, st, v, candidates):
+    """a symbolic string that the path condition pins to one of the candidate literals"""
+    from .values import str_code
+    for cand in candidates:
+        s = z3.Solver()
+        s.set("timeout", 2000)
+        for p in st.pc:
+            s.add(p)
+        s.add(v.t != str_code(cand))
+        if s.check() == z3.unsat:
+            return VStr.const(cand)
+    return v
 
 
 _CK = None
@@ -467,7 +509,12 @@ def exec_with(ex, s, st):
 # ---------------------------------------------------------------------------------------------
 
 
+REAL_BUILTINS = {"f32", "ln", "exp_", "log2_", "pow_", "ceil_", "le_bytes", "be_bytes"}
+
+
 def call_spec(ex, st, name, args, kwargs):
+    if name in REAL_BUILTINS:
+        return call_builtin(ex, st, name, args, kwargs, None)
     node = ex.eng.spec_funcs[name]
     rec = any(isinstance(d, ast.Name) and d.id == "recursive" for d in node.decorator_list)
     unint = any(isinstance(d, ast.Name) and d.id == "uninterpreted" for d in node.decorator_list)
